@@ -291,6 +291,11 @@ theorem closures_append_left (σ σ' : State N) (extra : List (Closure N)) (h : 
       rw [this] at hc; cases hc
   rw [h, List.getElem?_append_left hi]; exact hc
 
+/-- the layout of the definitions: the `i`-th one allocates one cell and two closures -/
+def mkInfos : Nat → Nat → List (String × Block) → List ModInfo
+  | _, _, [] => []
+  | c, f, nb :: rest => ⟨nb.1, nb.2, c, f, f + 1⟩ :: mkInfos (c + 1) (f + 2) rest
+
 theorem defs_exec (call : CallFn N) (ρ : ExtOracle N) (k : Nat) (L : Layout) (va : List (Val N)) :
     ∀ (todo : List (String × Block)) (done : List ModInfo) (σ : State N),
       Pre L done todo σ →
@@ -301,12 +306,13 @@ theorem defs_exec (call : CallFn N) (ρ : ExtOracle N) (k : Nat) (L : Layout) (v
         execSs call ρ (k + 1) ⟨L.locals0, va⟩ (todo.map fun nb => moduleDefinition L.M nb.1 nb.2) σ
           = .ok (.next ⟨L.locals0, va⟩) σ' ∧
         Pre L (done ++ infos) [] σ' ∧
-        σ' = todo.foldl (fun s nb => afterDefinition L.M nb.1 nb.2 L.locals0 L.tM s) σ := by
+        σ' = todo.foldl (fun s nb => afterDefinition L.M nb.1 nb.2 L.locals0 L.tM s) σ ∧
+        infos = mkInfos σ.cells.length σ.closures.length todo := by
   intro todo
   induction todo with
   | nil =>
     intro done σ hpre _ _
-    exact ⟨[], σ, rfl, by simp [execSs], by simpa using hpre, rfl⟩
+    exact ⟨[], σ, rfl, by simp [execSs], by simpa using hpre, rfl, rfl⟩
   | cons nb rest ih =>
     intro done σ hpre hnodup hcache
     obtain ⟨name, body⟩ := nb
@@ -388,11 +394,18 @@ theorem defs_exec (call : CallFn N) (ρ : ExtOracle N) (k : Nat) (L : Layout) (v
         rw [hgetC]; exact hpre.freeSlot nb' (List.mem_cons_of_mem _ hnb')
     have hnodup1 : (((done ++ [m]).map fun m => bytesOf m.name) ++ (rest.map fun nb => bytesOf nb.1)).Nodup := by
       simpa [List.map_append, List.append_assoc] using hnodup
-    obtain ⟨infos, σ', hmap, hexec, hpre', hfold⟩ := ih (done ++ [m]) σ1 hpre1 hnodup1
+    obtain ⟨infos, σ', hmap, hexec, hpre', hfold, hinfos⟩ := ih (done ++ [m]) σ1 hpre1 hnodup1
       (fun nb' hnb' => hcache nb' (List.mem_cons_of_mem _ hnb'))
-    refine ⟨m :: infos, σ', by simp [hmap]; exact ⟨rfl, rfl⟩, ?_, by simpa [List.append_assoc] using hpre', ?_⟩
+    have hlc : σ1.cells.length = σ.cells.length + 1 := by
+      show (afterDefinition L.M name body L.locals0 L.tM σ).cells.length = _
+      rw [hce]; simp
+    have hlf : σ1.closures.length = σ.closures.length + 2 := by
+      show (afterDefinition L.M name body L.locals0 L.tM σ).closures.length = _
+      rw [hcl]; simp
+    refine ⟨m :: infos, σ', by simp [hmap]; exact ⟨rfl, rfl⟩, ?_, by simpa [List.append_assoc] using hpre', ?_, ?_⟩
     rotate_left
     · rw [hfold]; rfl
+    · rw [hinfos, hlc, hlf]; rfl
     simp only [List.map_cons, execSs, hex, Res.bind]
     exact hexec
 
@@ -419,7 +432,8 @@ theorem prelude_establishes (call : CallFn N) (ρ : ExtOracle N) (k : Nat) (env 
         = .ok (.next ⟨(M, σ.cells.length) :: env.locals, env.varargs⟩) σ' ∧
       BI (layoutOf M env σ) infos (fun _ => none) σ' ∧
       σ' = mods.foldl (fun s nb => afterDefinition M nb.1 nb.2 ((M, σ.cells.length) :: env.locals) σ.tables.length s)
-        (afterTable σ) := by
+        (afterTable σ) ∧
+      infos = mkInfos (σ.cells.length + 1) σ.closures.length mods := by
   have hcell : (afterTable σ).getCell σ.cells.length = .tbl σ.tables.length := by
     simp [afterTable, State.getCell, State.allocCell, State.rawSet, State.setTable, State.allocTable]
   have hT : (afterTable σ).getTable σ.tables.length
@@ -446,9 +460,13 @@ theorem prelude_establishes (call : CallFn N) (ρ : ExtOracle N) (k : Nat) (env 
       exact hne'
     · intro nb _
       simp [layoutOf, State.rawGet, hTC, rawGetEntries]
-  obtain ⟨infos, σ', hmap, hexec, hpre', hfold⟩ := defs_exec call ρ k (layoutOf M env σ) env.varargs mods []
+  obtain ⟨infos, σ', hmap, hexec, hpre', hfold, hinfos⟩ := defs_exec call ρ k (layoutOf M env σ) env.varargs mods []
     (afterTable σ) hpre (by simpa using hnodup) hcache
-  refine ⟨infos, σ', hmap, ?_, ⟨hpre'.infra, ?_, ?_⟩, hfold⟩
+  have hlcT : (afterTable σ).cells.length = σ.cells.length + 1 := by
+    simp [afterTable, State.allocCell, State.rawSet, State.setTable, State.allocTable]
+  have hlfT : (afterTable σ).closures.length = σ.closures.length := by
+    simp [afterTable, State.allocCell, State.rawSet, State.setTable, State.allocTable]
+  refine ⟨infos, σ', hmap, ?_, ⟨hpre'.infra, ?_, ?_⟩, hfold, by rw [hinfos, hlcT, hlfT]⟩
   · have hdo := exec_do_block call ρ (k + 1) _ _ _ _ _ hexec
     cases mods with
     | nil => exact absurd rfl hne
